@@ -1077,6 +1077,6 @@ def oracle_perkey(src, ops, tail):
 def _mentions_permapi(e, depth=0):
     if depth > 50 or not isinstance(e, (tuple, list)):
         return False
-    if len(e) > 0 and e[0] == "permapi":
+    if len(e) > 0 and e[0] in ("permapi", "perfilter"):
         return True
     return any(_mentions_permapi(x, depth + 1) for x in e if isinstance(x, (tuple, list)))
